@@ -81,7 +81,7 @@ class Sched:
             self.cur = r[0] if r else None
             self.cv.notify_all()
 
-    def run(self, actors, timeout=10):
+    def run(self, actors, timeout=6):
         """actors: ordered list of (name, callable). Returns results dict name -> ("ok", value) | ("raise", text)."""
         self.order = [n for n, _ in actors]
         threads = []
@@ -107,8 +107,17 @@ class Sched:
         with self.cv:
             self.cur = self.order[0]
             self.cv.notify_all()
-        for t in threads:
-            t.join(timeout)
+        # wait for the actors; "hung" = no scheduler step and no actor finishing for `timeout` seconds of real time
+        # (progress-based, so a loaded machine does not turn a slow run into a hang)
+        import time as _t
+        last, since = (-1, -1), _t.time()
+        while any(t.is_alive() for t in threads):
+            cur = (self.step, len(self.done))
+            if cur != last:
+                last, since = cur, _t.time()
+            elif _t.time() - since > timeout:
+                break
+            _t.sleep(0.002)
         hung = [t for t in threads if t.is_alive()]
         if hung:
             self.deadlock = True
